@@ -5,9 +5,11 @@ From FS Require Export Model.Breaker Spec.BreakerSpec.
 
 Inductive case :=
   | CaseHist (id : Z) (calls : list bcall) (h : list (Z * bop)) (obs : list bobs)
+  (* only the listeners with these tags are registered (0 close, 1 open, 2 half-open, 3 generic) *)
+  | CaseHistL (id : Z) (lsn : list Z) (calls : list bcall) (h : list (Z * bop)) (obs : list bobs)
   | CaseRate (id : Z) (f n frate srate : Z).
 
-Definition case_id (c : case) : Z := match c with CaseHist id _ _ _ | CaseRate id _ _ _ _ => id end.
+Definition case_id (c : case) : Z := match c with CaseHist id _ _ _ | CaseHistL id _ _ _ _ | CaseRate id _ _ _ _ => id end.
 
 Fixpoint zlist_eqb (a b : list Z) : bool :=
   match a, b with
@@ -36,6 +38,11 @@ Definition hist_guard (calls : list bcall) (h : list (Z * bop)) : bool :=
 Definition agrees (run : bcfg -> list (Z * bop) -> list bobs) (c : case) : bool :=
   match c with
   | CaseHist _ calls h obs => hist_guard calls h && list_eqb bobs_eqb (run (build_bcfg calls) h) obs
+  | CaseHistL _ lsn calls h obs =>
+      (* an unregistered listener sees nothing; the others see what they always see *)
+      let keep (o : bobs) := {| ob_val := ob_val o; ob_state := ob_state o; ob_remaining := ob_remaining o; ob_metrics := ob_metrics o;
+                                ob_events := filter (fun e => existsb (Z.eqb (ev_tag e)) lsn) (ob_events o) |} in
+      hist_guard calls h && list_eqb bobs_eqb (map keep (run (build_bcfg calls) h)) obs
   | CaseRate _ f n fr sr => (rate f n =? fr) && (rate (n - f) n =? sr)
   end.
 
